@@ -292,6 +292,20 @@ Proof.
 Qed.
 #[export] Hint Resolve curr_byte_opt_src : pay.
 
+(* the first byte of a pattern the stream starts with is a byte of the source *)
+Lemma starts_with_src : forall text s x r, sinv text s -> starts_with s (x :: r) = true -> src_byte text x.
+Proof.
+  intros text s x r H E. unfold starts_with, avail in E.
+  destruct (s_rest s) as [|y l] eqn:Er; [rewrite firstn_nil in E; discriminate|].
+  destruct (N.to_nat (s_end s - s_pos s)); [discriminate|]. cbn [firstn prefix_b] in E.
+  apply andb_true_iff in E. destruct E as [E _]. assert (x = y) by lia. subst y.
+  exists (s_pos s). eapply sinv_head; eauto.
+Qed.
+(* InvalidChar2 "a whitespace" 'N': the 'N' of the NDATA the stream starts with *)
+#[export] Hint Extern 2 (exists p, nth_N _ p = Some 78) =>
+  match goal with E : starts_with ?s _ = true |- _ =>
+    apply (starts_with_src _ s 78 [68; 65; 84; 65]); [solve [eauto with pay] | exact E] end : pay.
+
 Lemma mk_slice_rinv : forall text a e,
   rinv text (fun sl => sl_start sl = a /\ sl_end sl = e /\ a <= e /\ e <= tlen text) (mk_slice text a e).
 Proof.
@@ -539,14 +553,28 @@ Lemma parse_misc_rinv : forall s c, sinv text s -> IC c -> rinv text SC (parse_m
 Proof. intros s c H Hc. unfold parse_misc. pay_tac. Qed.
 #[local] Hint Resolve parse_misc_rinv : pay.
 
-Lemma parse_attribute_rinv : forall s, sinv text s -> rinv text (sinv text) (parse_attribute text s).
+Lemma parse_attribute_rinv : forall s, sinv text s ->
+  rinv text (fun x => sinv text (snd x)) (parse_attribute text s).
 Proof. intros s H. unfold parse_attribute. pay_tac. Qed.
+#[local] Hint Resolve parse_attribute_rinv : pay.
+(* the error of a misnamed pseudo-attribute, InvalidString, carries a static string only *)
+Lemma parse_pseudo_attribute_rinv : forall name s, sinv text s ->
+  rinv text (sinv text) (parse_pseudo_attribute text name s).
+Proof. intros name s H. unfold parse_pseudo_attribute. pay_tac. Qed.
 Lemma decl_consume_spaces_rinv : forall s, sinv text s -> rinv text (sinv text) (decl_consume_spaces text s).
 Proof. intros s H. unfold decl_consume_spaces. pay_tac. Qed.
-#[local] Hint Resolve parse_attribute_rinv decl_consume_spaces_rinv : pay.
+#[local] Hint Resolve parse_pseudo_attribute_rinv decl_consume_spaces_rinv : pay.
 Lemma parse_declaration_rinv : forall s, sinv text s -> rinv text (sinv text) (parse_declaration text s).
 Proof. intros s H. unfold parse_declaration. pay_tac. Qed.
 #[local] Hint Resolve parse_declaration_rinv : pay.
+
+(* NonXmlChar of a system literal: a character of the literal (is_xml_str_rinv) *)
+Lemma parse_external_literal_rinv : forall s, sinv text s -> rinv text (sinv text) (parse_external_literal text s).
+Proof. intros s H. unfold parse_external_literal. pay_tac. Qed.
+(* InvalidExternalID carries no payload *)
+Lemma parse_pubid_literal_rinv : forall s, sinv text s -> rinv text (sinv text) (parse_pubid_literal text s).
+Proof. intros s H. unfold parse_pubid_literal. pay_tac. Qed.
+#[local] Hint Resolve parse_external_literal_rinv parse_pubid_literal_rinv : pay.
 
 Lemma parse_external_id_rinv : forall s, sinv text s ->
   rinv text (fun x => sinv text (snd x)) (parse_external_id text s).
